@@ -105,6 +105,15 @@ Section Helpers.
       destruct v; try (crunch; chain). apply IH in H. chain.
   Qed.
 
+  Lemma eval_select_case_ext es : forall s c i s' r, eval_select_case ev s c es i = (s', r) -> ext s s'.
+  Proof.
+    induction es as [|e es IH]; intros s c i s' r H; cbn [eval_select_case] in H.
+    - crunch. chain.
+    - destruct (ev s c e) as [s1 r1] eqn:E1. apply Hev in E1.
+      destruct r1; try (crunch; chain).
+      destruct (truthy a) as [[|]| | |]; try (crunch; chain). apply IH in H. chain.
+  Qed.
+
   Lemma through_ext ops : forall s x s' r, through ev s x ops = (s', r) -> ext s s'.
   Proof.
     induction ops as [|o ops IH]; intros s x s' r H; cbn [through] in H.
@@ -227,6 +236,7 @@ Proof.
     + destruct (eval f s c e1) as [s1 r1] eqn:E1. apply IH in E1.
       destruct r1 as [av| | |]; try (inversion H; subst; exact E1).
       destruct av; try (inversion H; subst; exact E1). apply IH in H. chain.
+    + apply (eval_select_case_ext _ IH) in H. exact H.
 Qed.
 
 Section FinHelpers.
